@@ -1099,6 +1099,7 @@ static void env_values(const char *self)
 static void enumerate(void)
 {
 	vf_alloc_install();
+	vf_alloc_track(1);
 	vk_load();
 	rc_rng_install();
 	vf_now = T0;
